@@ -308,4 +308,22 @@ CHECKS = {
                      'a stall verdict needs a quiescent deadlocked state seen in two goroutine dumps; anything else after the patience is inconclusive',
                      'schedules: the harness orders the named yield points and varies GOMAXPROCS; preemption elsewhere is left to the Go scheduler'],
     ),
+    'C10': dict(
+        pkg='./c10', test='TestC10', level='exploration', helpers={'vdriver': './cmd/vdriver'},
+        quick=dict(shards=8, checks=30, budget_s=900),
+        thorough=dict(shards=16, checks=700, budget_s=3400),
+        level_text=('Invariants over the reference server\'s arrival-ordered log of everything the real client wrote in generated histories: 1..8 concurrent callers, server '
+                    'answers in drawn orders/containers/gzip, server-initiated content-related (updates) and service (pong, acks, state info) messages plain and in containers, '
+                    'and a directed inversion attempt (one sender held right after it took its msg_id until another sender\'s message has reached the server). Checked: msg_id '
+                    'multiple of 4, strictly increasing in arrival order, seconds part within 2 s of arrival, odd seq_no for content-related and even for msgs_ack, seq_no '
+                    'non-decreasing, and every content-related server message (alone or in a container) named in a received msgs_ack at quiescence.'),
+        technique='history invariants over generated scenarios (rapid) with a directed yield-point schedule against a reference server',
+        rule=('case = rpc scenario (callers, answer schedule, interleaved server pushes, optional hold at send.msgid, GOMAXPROCS). Non-trivial: the received stream has two '
+              'adjacent requests or an acknowledgement interleaved with requests; distinct by hash of the scenario.'),
+        must_hit=['feat:adjacent-requests', 'feat:ack-interleaved-with-requests', 'feat:content-related-in-container', 'directed:hold-after-msgid', 'server-history:content-related-push',
+                  'server-history:service-push', 'concurrent-callers', 'verdict:ok'],
+        assumptions=['seq_no: the statement demands parity and monotonicity, not the exact value 2*count',
+                     'no clock hook: equal clock readings for two messages are unreachable here (a write system call separates two reads under the send lock)',
+                     'a missing acknowledgement is a violation only when the client is quiescent (receive loop idle in two goroutine dumps)'],
+    ),
 }
